@@ -169,9 +169,9 @@ def judge(sc: Scenario, case):
                     got.append("A")
                 else:
                     others.append(f.dest_mod)
-            elif f.send_time == int(f.send_time) and int(f.send_time) in sc.pubs and f.msg_type == MARK \
-                    and sc.pubs[int(f.send_time)]["by"] == L:
-                got.append(("M", int(f.send_time)))
+            elif f.pid in sc.pubs and f.msg_type == MARK \
+                    and sc.pubs[f.pid]["by"] == L:
+                got.append(("M", f.pid))
         C["acks_expected"] = C.get("acks_expected", 0) + exp[L].count("A")
         ok = match(exp[L], got, is_logger)
         if not ok:
